@@ -16,7 +16,7 @@ CFG = {
                   "the model maps them to Add / Insert(0,...) and the harness calls those.",
     "harness": "c07",
     "theorems": [("C07.Props", [
-        "C07_array", "C07_dlist", "C07_slist", "C07_spec_quiet", "C07_spec_out_of_range", "C07_spec_index_of", "C07_spec_sort"])],
+        "C07_array", "C07_dlist", "C07_slist", "C07_spec_quiet", "C07_no_panic_no_output", "C07_spec_out_of_range", "C07_spec_index_of", "C07_spec_sort"])],
     "trusted": [
         "stdout capture: os.Stdout is replaced by a scratch file for the whole harness run and the file offset is read around every call "
         "(writes that bypass os.Stdout, e.g. direct syscalls on fd 1, would not be seen)",
